@@ -2,10 +2,25 @@
 package main
 
 import (
+	"os"
+	"runtime/pprof"
+	"time"
+
 	_ "verifharness/checks/c34"
 	_ "verifharness/checks/c38"
 	_ "verifharness/checks/c41"
 	"verifharness/internal/vf"
 )
 
-func main() { vf.Main() }
+func main() {
+	if p := os.Getenv("ZZ_PROF"); p != "" {
+		f, _ := os.Create(p)
+		pprof.StartCPUProfile(f)
+		go func() {
+			time.Sleep(40 * time.Second)
+			pprof.StopCPUProfile()
+			f.Close()
+		}()
+	}
+	vf.Main()
+}
